@@ -31,9 +31,9 @@ fn keepalive() -> BoxedStrategy<u16> {
 pub fn strategy() -> BoxedStrategy<Case> {
     let prelude = prop_oneof![
         3 => Just(None),
-        2 => (prop_oneof![2 => Just(None), 3 => keepalive().prop_map(Some)], 0u8..4, any::<u16>()).prop_map(Some),
+        2 => (prop_oneof![2 => Just(None), 3 => keepalive().prop_map(Some)], 0u8..6, any::<u16>()).prop_map(Some),
     ];
-    (keepalive(), prop_oneof![3 => Just(None), 2 => keepalive().prop_map(Some)], 0u8..6, prop::collection::vec((0u8..10, any::<u16>()), 1..4), prop::collection::vec((0u8..8, 0u8..6, any::<u16>()), 2..9), any::<u8>(), prelude)
+    (keepalive(), prop_oneof![3 => Just(None), 2 => keepalive().prop_map(Some)], 0u8..6, prop::collection::vec((0u8..10, any::<u16>()), 1..4), prop::collection::vec((0u8..8, 0u8..9, any::<u16>()), 2..9), any::<u8>(), prelude)
         .prop_map(|(k, s, jsel, pings, segs, hsel, prelude)| {
             // executor latency stays below the client's own lead time and waits are sized in units
             // of the keep-alive. Without an override on the judged connection the client may go by
@@ -92,6 +92,16 @@ pub fn strategy() -> BoxedStrategy<Case> {
                     1 => steps.push(Step::Publish(PubSpec::simple(1, 2, 2, *r as u8))),
                     2 => steps.push(Step::DeliverAt { delay_ms: (ms / 2) as u32, qos: 1, payload: PayloadSpec::new(2, *r as u8) }),
                     3 => steps.push(Step::DeliverAt { delay_ms: ms as u32, qos: 0, payload: PayloadSpec::new(2, *r as u8) }),
+                    // requests that put nothing on the wire must not count as keep-alive traffic:
+                    // a subscribe / unsubscribe (queued when the window is full, see `paced`) ...
+                    4 => steps.push(Step::Subscribe {
+                        filters: vec![(TopicSpec::new(2, *r as u8), crate::refcodec::SubOpts { qos: 1, no_local: false, rap: false, retain_handling: 0 })],
+                        props: vec![],
+                        cancel: None,
+                    }),
+                    5 => steps.push(Step::Unsubscribe { filters: vec![TopicSpec::new(2, *r as u8)], props: vec![], cancel: None }),
+                    // ... and a QoS 0 publish that is refused as too large (Maximum Packet Size 30)
+                    6 => steps.push(Step::Publish(PubSpec::simple(0, 2, 40, *r as u8))),
                     _ => {}
                 }
                 steps.push(Step::PollFor { ms: ms as u32 });
@@ -104,6 +114,7 @@ pub fn strategy() -> BoxedStrategy<Case> {
             };
             steps.push(Step::PollFor { ms: tail.min(4_000_000) as u32 });
             let mut conns = Vec::new();
+            let mut paced = false;
             if let Some((s0, ending, r)) = prelude {
                 // an earlier connection of the same session with its own (or no) Server Keep Alive:
                 // nothing of its keep-alive state may leak into the connection that is judged
@@ -116,6 +127,15 @@ pub fn strategy() -> BoxedStrategy<Case> {
                     0 => {}
                     1 => end = EndHow::Forget,
                     2 => st.push(Step::Publish(PubSpec::simple(1, 2, 2, r as u8))),
+                    4 | 5 => {
+                        // three publishes stay unacknowledged; the judged connection announces a
+                        // Receive Maximum of 1, so their replay is paced and requests queue behind it
+                        st.push(Step::SetBroker(BrokerMode::Scripted));
+                        for i in 0..3u8 {
+                            st.push(Step::Publish(PubSpec::simple(1, 2, 2, i)));
+                        }
+                        paced = true;
+                    }
                     _ => {
                         // the connection is abandoned while a PINGREQ is queued but not yet written
                         io.pend_first = true;
@@ -125,8 +145,17 @@ pub fn strategy() -> BoxedStrategy<Case> {
                 }
                 conns.push(ConnScript { connect: ConnectSpec { props: ConnackProps { server_keepalive: s0, ..ConnackProps::default() }, io, ..ConnectSpec::default() }, steps: st, end });
             }
+            let small_limit = segs.iter().any(|x| x.1 == 6);
             conns.push(ConnScript {
-                connect: ConnectSpec { props: ConnackProps { server_keepalive: s, ..ConnackProps::default() }, ..ConnectSpec::default() },
+                connect: ConnectSpec {
+                    props: ConnackProps {
+                        server_keepalive: s,
+                        receive_max: if paced { Some(1) } else { None },
+                        max_packet: if small_limit { Some(30) } else { None },
+                        ..ConnackProps::default()
+                    },
+                    ..ConnectSpec::default()
+                },
                 steps,
                 end: EndHow::Drop,
             });
@@ -360,7 +389,7 @@ pub fn run(ctx: &Ctx) -> i32 {
         agg,
         Report {
             level: "exploration",
-            rule: "keep-alive from {0,1,2,3,4,5,9,10,11,12,60,65535} or random, optional Server Keep Alive override, executor latency from {0, 1 us, 1 ms, lead/2, lead-1 us}; the application alternates publishes / scheduled inbound deliveries with poll() waits whose lengths land before, exactly on and after the PINGREQ deadline, then waits for >= 20 keep-alive periods; in 40 % of the cases an earlier connection of the same session comes first, with its own or no Server Keep Alive, ended by drop / leak / with a publish in flight / while a PINGREQ is queued but unwritten, and the judged connection resumes the session; PINGRESP delay per PINGREQ from {0, 1 ms, keep-alive/2, keep-alive+1 ms, bound-1 us, bound+1 us, bound+3 s, random, never}. Virtual time jumps to the client's own timer deadlines. Oracle over virtual timestamps: gap between consecutive completed client packets (from CONNACK) <= effective keep-alive; keep-alive 0 => no PINGREQ; unanswered PINGREQ => Disconnected at completion+5 s (not earlier, not later than that plus injected latency); PINGRESP readable before the bound => no disconnect. Non-trivial = at least one PINGREQ and (a late/absent PINGRESP or a deadline coincidence); distinct = distinct case value.".into(),
+            rule: "keep-alive from {0,1,2,3,4,5,9,10,11,12,60,65535} or random, optional Server Keep Alive override, executor latency from {0, 1 us, 1 ms, lead/2, lead-1 us}; the application alternates publishes / scheduled inbound deliveries with poll() waits whose lengths land before, exactly on and after the PINGREQ deadline, then waits for >= 20 keep-alive periods; requests that put nothing on the wire are mixed in (subscribe/unsubscribe queued behind a paced replay - three unacknowledged publishes resumed under Receive Maximum 1 - and QoS 0 publishes refused under Maximum Packet Size 30); in 40 % of the cases an earlier connection of the same session comes first, with its own or no Server Keep Alive, ended by drop / leak / with a publish in flight / while a PINGREQ is queued but unwritten, and the judged connection resumes the session; PINGRESP delay per PINGREQ from {0, 1 ms, keep-alive/2, keep-alive+1 ms, bound-1 us, bound+1 us, bound+3 s, random, never}. Virtual time jumps to the client's own timer deadlines. Oracle over virtual timestamps: gap between consecutive completed client packets (from CONNACK) <= effective keep-alive; keep-alive 0 => no PINGREQ; unanswered PINGREQ => Disconnected at completion+5 s (not earlier, not later than that plus injected latency); PINGRESP readable before the bound => no disconnect. Non-trivial = at least one PINGREQ and (a late/absent PINGRESP or a deadline coincidence); distinct = distinct case value.".into(),
             assumptions: vec![
                 "5 s round-trip bound as documented (README, session/state.rs)".into(),
                 "a PINGRESP that becomes readable exactly at the bound is unspecified".into(),
